@@ -136,8 +136,14 @@ def _locals_of(fn, params):
     return out
 
 
+# attributes that are computed from the tree on every read (navigation properties): an argument like `self.children` must be
+# evaluated once, where the call stands, not re-read wherever the helper uses its parameter
+_COMPUTED_ATTRS = {"parent", "children", "path", "_path", "ancestors", "anchestors", "descendants", "root", "siblings", "leaves",
+                   "is_leaf", "is_root", "height", "depth", "size"}
+
+
 def _simple(e):
-    return isinstance(e, (ast.Name, ast.Constant)) or (isinstance(e, ast.Attribute) and _simple(e.value))
+    return isinstance(e, (ast.Name, ast.Constant)) or (isinstance(e, ast.Attribute) and e.attr not in _COMPUTED_ATTRS and _simple(e.value))
 
 
 class Inliner:
